@@ -2,6 +2,8 @@
    Only statements here; each is closed by [exact] of a lemma proved elsewhere. *)
 From Coq Require Import ZArith List Bool PrimFloat.
 From HV Require Import Base.ZRange Grid.Window Grid.WindowProofs Grid.OtherGrid.
+From HVgen Require Import Blocks.
+From HV Require Import Tie.BlockTie.
 Import ListNotations.
 Open Scope Z_scope.
 
@@ -60,3 +62,31 @@ Print Assumptions C06_legacy_other_out_refuted.
 Example C06_other_example :
   map (fun b => (2 * out_lo b + 1, 2 * out_hi b + 1)) (axis_blocks 3 7 4 1) = [(7, 15); (15, 21)].
 Proof. reflexivity. Qed.
+
+(* the block shape the code derives from max_block_mem (halve the longer side until the block fits) always satisfies the hypothesis
+   "block shape >= 1" of the partition theorems above, never exceeds the window, and meets the memory bound before rounding up:
+   so the theorems apply to every max_block_mem for which block_pairs does not raise BlockSizeError *)
+Theorem C06_auto_block_shape_bounds h w maxb bh bw : 1 <= h -> 1 <= w ->
+  auto_block_shape h w maxb = Some (bh, bw) -> 1 <= bh <= h /\ 1 <= bw <= w.
+Proof. exact (auto_block_shape_bounds h w maxb bh bw). Qed.
+Theorem C06_auto_block_shape_memory fuel h w mb qh qw : 1 <= h -> 1 <= w ->
+  halve_loop fuel (QArith_base.inject_Z h) (QArith_base.inject_Z w) mb = Some (qh, qw) ->
+  QArith_base.Qle (QArith_base.Qmult (QArith_base.Qmult qh qw) (QArith_base.inject_Z 4)) mb.
+Proof. exact (auto_block_shape_memory fuel h w mb qh qw). Qed.
+Print Assumptions C06_auto_block_shape_bounds.
+Example C06_auto_block_shape_example : auto_block_shape 100 37 (Some (QArith_base.inject_Z 2000)) = Some (25, 19).
+Proof. vm_compute. reflexivity. Qed.
+
+(* ---- tie to the source: the integer arithmetic of block_pairs in the current raster_pair.py (gen/Blocks.v, regenerated on every run) is the
+        arithmetic of Grid.Window: the range of block corners, the four corners of the overlapping and non-overlapping block, loop order,
+        windows built from corners, fuse passing its overlap and compare passing none *)
+Theorem C06_source_block_arithmetic_is_the_model off n bs ov u :
+  Blocks.translation_failed = false /\
+  uls off n bs ov = pyrange (Z.to_nat n + 1) (gen_range_start off n bs ov) (gen_range_stop off n bs ov) (gen_range_step off n bs ov) /\
+  (let br := gen_br u bs ov off (off + n) in
+   mk_ablk off n bs ov u = {| in_lo := gen_in_lo u bs ov off (off + n) br; in_hi := gen_in_hi u bs ov off (off + n) br;
+                              out_lo := gen_out_lo u bs ov off (off + n) br; out_hi := gen_out_hi u bs ov off (off + n) br |}) /\
+  (gen_rows_outer_bands_outermost = true /\ gen_window_corners_ok = true /\ gen_windows_from_corners_ok = true /\ gen_outer_ok = true /\
+   gen_fuse_passes_overlap = true /\ gen_compare_no_overlap = true).
+Proof. exact (blocks_tied off n bs ov u). Qed.
+Print Assumptions C06_source_block_arithmetic_is_the_model.
